@@ -94,6 +94,12 @@ func newSubProcess(eventBuilder event.IDefinitionInstanceBuilder, idGenerator id
 			return
 		}
 
+		// an event handed to the enclosing scope reaches the catch events inside the sub-process too
+		err = parentWiring.eventEgress.RegisterEventConsumer(process)
+		if err != nil {
+			return
+		}
+
 		wiringMaker := func(element *schema.FlowNode) (*wiring, error) {
 			return newWiring(
 				parentWiring.processInstanceId,
@@ -429,6 +435,11 @@ func newSubProcess(eventBuilder event.IDefinitionInstanceBuilder, idGenerator id
 }
 
 func (sp *subProcess) ConsumeEvent(ev event.IEvent) (result event.ConsumptionResult, err error) {
+	if sp.active.Load() == 0 {
+		// no token is inside the sub-process: nobody in there is listening
+		result = event.Consumed
+		return
+	}
 	sp.eventConsumersLock.RLock()
 	// We're copying the list of consumers here to ensure that
 	// new consumers can subscribe during event forwarding
